@@ -2275,11 +2275,133 @@ theorem C08.toProx_mkRscal (E : OdlModel.Prox.Env K) (w : List K) (c : K) (hc : 
     simp only [Fn.toProx, hG, Option.map_some]
     exact ⟨_, rfl, fun τ y => rfl⟩
 
+/-- Helper (all lengths): re-association of entry-wise sums of three lists. -/
+theorem C08.zip_add_assoc (t u P : List K) :
+    List.zipWith (· + ·) (List.zipWith (· + ·) t u) P
+      = List.zipWith (· + ·) u (List.zipWith (· + ·) t P) := by
+  induction t generalizing u P with
+  | nil => cases u <;> simp
+  | cons a t ih =>
+    cases u with
+    | nil => simp
+    | cons b u =>
+      cases P with
+      | nil => simp
+      | cons c P => simp only [List.zipWith_cons_cons, ih]; congr 1; ring
+
+/-- Helper (all lengths): `y − (t + u) = (y − u) − t` entry-wise. -/
+theorem C08.zip_sub_assoc (y t u : List K) :
+    List.zipWith (· - ·) y (List.zipWith (· + ·) t u)
+      = List.zipWith (· - ·) (List.zipWith (· - ·) y u) t := by
+  induction y generalizing t u with
+  | nil => simp
+  | cons a y ih =>
+    cases t with
+    | nil => cases u <;> simp
+    | cons b t =>
+      cases u with
+      | nil => simp
+      | cons c u => simp only [List.zipWith_cons_cons, ih]; congr 1; ring
+
+/-- Helper: `proximal_translation` on lists. -/
+theorem C08.trans_prox (E : OdlModel.Prox.Env K) (w : List K) (G : OdlModel.Prox.Fn K) (t : List K)
+    (τ : K) (y : List K) :
+    (OdlModel.Prox.Fn.trans G t).prox E w (.sc τ) y
+      = List.zipWith (· + ·) t (G.prox E w (.sc τ) (List.zipWith (· - ·) y t)) := by
+  simp only [OdlModel.Prox.Fn.prox, OdlModel.Prox.proxTranslation]
+  rfl
+
+/-- Proximal of the MERGED translation `g.translated(u)` (`g` possibly itself a translation):
+the same operator as `proximal_translation(g.proximal, u)` (all lengths). -/
+theorem C08.toProx_translated (E : OdlModel.Prox.Env K) (w u : List K)
+    (g : Fn (List K) K) (G : OdlModel.Prox.Fn K) (hG : g.toProx 1 = some G) :
+    ∃ G', (Fn.translated (listOps w) g u).toProx 1 = some G' ∧
+      ∀ τ y, G'.prox E w (.sc τ) y = (OdlModel.Prox.Fn.trans G u).prox E w (.sc τ) y := by
+  by_cases hl : ∃ g0 t0, g = .trans g0 t0
+  · obtain ⟨g0, t0, rfl⟩ := hl
+    simp only [Fn.translated, Fn.toProx] at hG ⊢
+    cases hg0 : g0.toProx 1 with
+    | none => simp [hg0] at hG
+    | some G0 =>
+      simp only [hg0, Option.map_some, Option.some.injEq] at hG ⊢
+      subst hG
+      refine ⟨_, rfl, fun τ y => ?_⟩
+      rw [C08.trans_prox, C08.trans_prox, C08.trans_prox]
+      show List.zipWith (· + ·) (List.zipWith (· + ·) t0 u) _ = _
+      rw [C08.zip_add_assoc]
+      exact congrArg (fun z => List.zipWith (· + ·) u (List.zipWith (· + ·) t0
+        (OdlModel.Prox.Fn.prox E G0 w (.sc τ) z))) (C08.zip_sub_assoc y t0 u)
+  · have e : Fn.translated (listOps w) g u = .trans g u := by
+      cases g <;> first | rfl | exact absurd ⟨_, _, rfl⟩ hl
+    rw [e]
+    simp only [Fn.toProx, hG, Option.map_some]
+    exact ⟨_, rfl, fun τ y => rfl⟩
+
+/-- A translation is never flagged linear. -/
+theorem C08.isLinear_translated (w u : List K) (g : Fn (List K) K) :
+    (Fn.translated (listOps w) g u).isLinear = false := by
+  cases g <;> rfl
+
+/-- Helper (all lengths): `p1 + σ(u + p2) = σu + (p1 + σ p2)` entry-wise. -/
+theorem C08.moreauLhs_add_right (σ : K) (u A B : List K) :
+    moreauLhs σ A (List.zipWith (· + ·) u B)
+      = List.zipWith (· + ·) (u.map (σ * ·)) (moreauLhs σ A B) := by
+  unfold moreauLhs
+  induction u generalizing A B with
+  | nil => cases A <;> simp
+  | cons a u ih =>
+    cases A with
+    | nil => simp
+    | cons b A =>
+      cases B with
+      | nil => simp
+      | cons c B => simp only [List.map_cons, List.zipWith_cons_cons, ih]; congr 1; ring
+
+/-- Helper (all lengths): `(x − σu)/σ = x/σ − u` entry-wise. -/
+theorem C08.zip_sub_div2 (σ : K) (hσ : σ ≠ 0) (x u : List K) :
+    (List.zipWith (· - ·) x (u.map (σ * ·))).map (· / σ)
+      = List.zipWith (· - ·) (x.map (· / σ)) u := by
+  induction x generalizing u with
+  | nil => simp
+  | cons a x ih =>
+    cases u with
+    | nil => simp
+    | cons b u =>
+      simp only [List.map_cons, List.zipWith_cons_cons, ih]
+      congr 1
+      field_simp
+
+open OdlModel.C08 in
+/-- Step: `FunctionalQuadraticPerturb` with `quadratic_coeff = 0` (linear perturbation `<·, u>`):
+`proximal_quadratic_perturbation(f.proximal, a = 0, u)` against the proximal of the coded
+conjugate `f*.translated(u)`. -/
+theorem C08.MP_qp0 (E : OdlModel.Prox.Env K) (hE : SqrtOK E) (w : List K) (n : ℕ)
+    (F G G' : OdlModel.Prox.Fn K) (u : List K) (hu : u.length = n) (h : MP E w n F G)
+    (hG' : ∀ τ y, G'.prox E w (.sc τ) y = (OdlModel.Prox.Fn.trans G u).prox E w (.sc τ) y) :
+    MP E w n (.quad F 0 (some u)) G' := by
+  intro σ x hσ hx
+  have hσne : σ ≠ 0 := ne_of_gt hσ
+  have hlen : (List.zipWith (· - ·) x (u.map (σ * ·))).length = n := by simp [hx, hu]
+  obtain ⟨h1, h2, h3⟩ := h σ (List.zipWith (· - ·) x (u.map (σ * ·))) hσ hlen
+  have e0 : (OdlModel.Prox.Fn.quad F 0 (some u)).prox E w (.sc σ) x
+      = F.prox E w (.sc σ) (List.zipWith (· - ·) x (u.map (σ * ·))) := by
+    simp only [OdlModel.Prox.Fn.prox, OdlModel.Prox.proxQuadPerturb, OdlModel.Prox.proxArgScaling,
+      OdlModel.Prox.Sig.scalar, Option.map_some, mul_zero, zero_add, C08.sqrt_one E hE, div_one,
+      mul_one, one_mul, C08.vec_smul_data, C08.vec_sub_data, List.map_id']
+  have hB : G.prox E w (.sc (1 / σ)) (List.zipWith (· - ·) (x.map (· / σ)) u)
+      = G.prox E w (.sc (1 / σ)) ((List.zipWith (· - ·) x (u.map (σ * ·))).map (· / σ)) := by
+    rw [C08.zip_sub_div2 σ hσne]
+  rw [hG', C08.trans_prox, e0, hB, C08.moreauLhs_add_right, h1,
+    C08.zip_add_sub x _ (by simp [hx, hu])]
+  refine ⟨rfl, h2, ?_⟩
+  rw [List.length_zipWith, h3, hu, Nat.min_self]
+
 /-- Convex expressions whose Moreau decomposition is a theorem about the executed definitions:
 the six built-in classes with a hand-coded proximal (point indicators `IndicatorZero` only with
 a non-zero constant, so that no conjugate is flagged linear) closed under
 `FunctionalScalarSum`, `FunctionalLeftScalarMult` (`s > 0`), `FunctionalRightScalarMult`
-(`s ≠ 0`) and `FunctionalTranslation` (shift of the space's length `n`). -/
+(`s ≠ 0`), `FunctionalTranslation`, `FunctionalQuadraticPerturb` with quadratic coefficient 0 and a
+linear term, and `BregmanDistance` (vectors of the space's length `n`). -/
 inductive OdlModel.C08.MReg (n : ℕ) : Fn (List K) K → Prop
   | l1 : MReg n (.coord .l1)
   | indLinf : MReg n (.coord .indLinf)
@@ -2291,6 +2413,10 @@ inductive OdlModel.C08.MReg (n : ℕ) : Fn (List K) K → Prop
   | lscal (s : K) (f : Fn (List K) K) (hs : 0 < s) (h : MReg n f) : MReg n (.lscal s f)
   | rscal (f : Fn (List K) K) (s : K) (hs : s ≠ 0) (h : MReg n f) : MReg n (.rscal f s)
   | trans (f : Fn (List K) K) (t : List K) (ht : t.length = n) (h : MReg n f) : MReg n (.trans f t)
+  | qp (f : Fn (List K) K) (u : List K) (c : K) (hu : u.length = n) (h : MReg n f) :
+      MReg n (.qp f 0 true u c)
+  | breg (f : Fn (List K) K) (p q : List K) (hq : q.length = n) (h : MReg n f) :
+      MReg n (.breg f p q)
 
 theorem C08.ok_inj {p1 p2 l q1 q2 m : List K}
     (h : MoreauOut.ok p1 p2 l = MoreauOut.ok q1 q2 m) : p1 = q1 ∧ p2 = q2 ∧ l = m := by
@@ -2316,8 +2442,8 @@ theorem C08.idxMap_length (x : List K) (φ : ℕ → K → K) :
 open OdlModel.C08 in
 /-- **Moreau decomposition for derived trees, executed definitions** (all lengths `n`, all
 weights, all `x`, all `σ > 0`, all depths): for every expression of `MReg` — built-ins with a
-hand-coded proximal under scalar sums, positive left scalings, non-zero argument scalings and
-translations, nested in any order — the coded `convex_conj` exists, is not flagged linear, both
+hand-coded proximal under scalar sums, positive left scalings, non-zero argument scalings,
+translations, linear perturbations and Bregman distances, nested in any order — the coded `convex_conj` exists, is not flagged linear, both
 `proximal` properties return a factory, and `f.proximal(σ)(x) + σ·f.convex_conj.proximal(1/σ)(x/σ) = x`
 with the proximals as `proximal_operators.py` computes them (including the merging of nested
 scalings by the constructors and the `is_linear` dispatch of `Functional.__mul__`).
@@ -2402,6 +2528,39 @@ theorem C08.moreau_exec_tree_struct (E : OdlModel.Prox.Env K) (hE : SqrtOK E) (w
     · simp [Fn.isLinear, hlin]
     · simp [Fn.toProx, hF]
     · simp [Fn.toProx, hG]
+  | qp f u c hu h ih =>
+    obtain ⟨g, F, G, hg, hlin, hF, hG, hMP⟩ := ih
+    obtain ⟨G', hG', hsem⟩ := C08.toProx_translated E w u g G hG
+    have hMP' := C08.MP_qp0 E hE w n F G G' u hu hMP hsem
+    by_cases hc : c = 0
+    · refine ⟨Fn.translated (listOps w) g u, .quad F 0 (some u), G', ?_,
+        C08.isLinear_translated w u g, ?_, hG', hMP'⟩
+      · simp [Fn.conj, hg, hc]
+      · simp [Fn.toProx, hF]
+    · refine ⟨.ssum (Fn.translated (listOps w) g u) (-c), .quad F 0 (some u), G', ?_, ?_, ?_, ?_,
+        hMP'⟩
+      · simp [Fn.conj, hg, hc]
+      · simp [Fn.isLinear, C08.isLinear_translated]
+      · simp [Fn.toProx, hF]
+      · simp [Fn.toProx, hG']
+  | breg f p q hq h ih =>
+    obtain ⟨g, F, G, hg, hlin, hF, hG, hMP⟩ := ih
+    have hu' : (listOps w).smul (-1) q = q.map ((-1) * ·) := rfl
+    obtain ⟨G', hG', hsem⟩ := C08.toProx_translated E w (q.map ((-1) * ·)) g G hG
+    have hMP' := C08.MP_qp0 E hE w n F G G' (q.map ((-1) * ·)) (by simp [hq]) hMP hsem
+    by_cases hc : -(f.value (listOps w) p) + (listOps w).inner q p = 0
+    · refine ⟨Fn.translated (listOps w) g (q.map ((-1) * ·)), .quad F 0 (some (q.map ((-1) * ·))),
+        G', ?_, C08.isLinear_translated w _ g, ?_, hG', hMP'⟩
+      · simp [Fn.conj, hg, hc, hu']
+      · simp [Fn.toProx, hF]
+    · refine ⟨.ssum (Fn.translated (listOps w) g (q.map ((-1) * ·)))
+          (-(-(f.value (listOps w) p) + (listOps w).inner q p)),
+        .quad F 0 (some (q.map ((-1) * ·))), G', ?_, ?_, ?_, ?_, hMP'⟩
+      · simp [Fn.conj, hg, hc, hu']
+      · simp [Fn.isLinear, C08.isLinear_translated]
+      · simp [Fn.toProx, hF]
+      · simp only [Fn.toProx, hG']
+
 open OdlModel.C08 in
 /-- **Moreau decomposition for derived trees — what the driver's `moreau` op answers**: for every
 expression of `MReg n`, every `σ > 0` and every `x` of length `n` the answer is
@@ -2450,4 +2609,128 @@ example : (∃ p1 p2, moreauPair realEnv 1 [1, 2] (.coord .indLinf) (1 / 2) [3, 
       = .ok p1 p2 [3, -1 / 4]) :=
   ⟨C08.moreau_exec_linf _ _ _ _ (by norm_num), C08.moreau_exec_l2sq _ _ _ _ (by norm_num),
    C08.moreau_exec_indzero _ _ _ _ _ (by norm_num)⟩
+/-- Non-vacuity of the `qp` / `breg` nodes of `moreau_exec_tree`: the Bregman distance of `‖·‖²`
+(point `(1,2)`, subgradient `(2,4)`) plus a linear perturbation and a constant. -/
+example : ∃ p1 p2, moreauPair realEnv 1 [1, 1]
+      (.qp (.breg .l2sq [1, 2] [2, 4]) 0 true [1, -1] 3) 2 [5, -7]
+    = .ok p1 p2 [5, -7] ∧ p1.length = 2 ∧ p2.length = 2 :=
+  C08.moreau_exec_tree realEnv C08.realEnv_sqrtOK [1, 1] 2 _
+    (.qp _ _ _ rfl (.breg _ _ _ rfl .l2sq)) 2 [5, -7] (by norm_num) rfl
 end moreau_exec_examples
+
+section moreau_extra
+variable {K : Type} [Field K] [LinearOrder K] [IsStrictOrderedRing K]
+
+/-- Helper: `ProximalConvexConjL1._call` with radius `lam > 0` is the clip to `[-lam, lam]`. -/
+theorem C08.ccL1_clip (lam y : K) (hl : 0 < lam) :
+    OdlModel.Prox.ccL1Code lam 0 y = if lam < y then lam else if y < -lam then -lam else y := by
+  have hlne : lam ≠ 0 := ne_of_gt hl
+  unfold OdlModel.Prox.ccL1Code OdlModel.Prox.maxK OdlModel.Prox.absK
+  simp only [sub_zero]
+  by_cases h0 : y < 0
+  · simp only [h0, if_true]
+    have n1 : ¬ (lam < y) := by linarith
+    by_cases h1 : -y ≤ lam
+    · have n2 : ¬ (y < -lam) := by linarith
+      simp only [h1, n1, n2, if_true, if_false]; field_simp
+    · have n2 : (y < -lam) := by linarith
+      have hy : -y ≠ 0 := by linarith
+      have hy' : y ≠ 0 := by linarith
+      simp only [h1, n1, n2, if_true, if_false]; field_simp
+  · simp only [h0, if_false]
+    have n2 : ¬ (y < -lam) := by linarith
+    by_cases h1 : y ≤ lam
+    · have n1 : ¬ (lam < y) := by linarith
+      simp only [h1, n1, n2, if_true, if_false]; field_simp
+    · have n1 : (lam < y) := by linarith
+      have hy : y ≠ 0 := by linarith
+      simp only [h1, n1, n2, if_true, if_false]; field_simp
+
+/-- **Moreau decomposition of the L1 pair WITH the code's fudged radius** (entry-wise): for
+`lam = float(1·(1 − eps)) ∈ (0, 1]` the two hand-coded proximals miss the identity by at most
+`σ·(1 − lam)` (`= σ·10⁻¹⁴` in the code) — the exact statement behind the hypothesis
+`lamF = 1` of the `moreau_exec_*` theorems. -/
+theorem C08.moreau_l1_fudged (σ x lam : K) (hσ : 0 < σ) (hl : 0 < lam) (hl1 : lam ≤ 1) :
+    |OdlModel.Prox.softCode σ x 0 + σ * OdlModel.Prox.ccL1Code lam 0 (x / σ) - x|
+      ≤ σ * (1 - lam) := by
+  have h := C08.moreau_l1_coded σ x hσ
+  rw [C08.ccL1_one] at h
+  rw [C08.ccL1_clip lam _ hl]
+  have e : OdlModel.Prox.softCode σ x 0
+      = x - σ * (if 1 < x / σ then (1:K) else if x / σ < -1 then -1 else x / σ) := by linarith
+  rw [e]
+  generalize x / σ = y
+  have key : ∀ a b : K, |a - b| ≤ 1 - lam → |x - σ * b + σ * a - x| ≤ σ * (1 - lam) := by
+    intro a b hab
+    have : x - σ * b + σ * a - x = σ * (a - b) := by ring
+    rw [this, abs_mul, abs_of_pos hσ]
+    exact mul_le_mul_of_nonneg_left hab hσ.le
+  apply key
+  rw [abs_le]
+  split_ifs <;> constructor <;> linarith
+
+
+/-- Helper (equal lengths): `p + σ(x/σ − p/σ) = x` entry-wise. -/
+theorem C08.moreauLhs_conj (σ : K) (hσ : σ ≠ 0) (x p : List K) (h : p.length = x.length) :
+    moreauLhs σ p (List.zipWith (· - ·) (x.map (· / σ)) (p.map ((1 / σ) * ·))) = x := by
+  unfold moreauLhs
+  induction x generalizing p with
+  | nil => cases p <;> simp_all
+  | cons a x ih =>
+    cases p with
+    | nil => simp at h
+    | cons b p =>
+      simp only [List.length_cons, Nat.add_right_cancel_iff] at h
+      simp only [List.map_cons, List.zipWith_cons_cons, ih p h]
+      congr 1
+      field_simp
+      ring
+
+/-- **Moreau decomposition where the code falls back to `FunctionalDefaultConvexConjugate`**
+(e.g. `FunctionalQuadraticPerturb` with quadratic coefficient `a ≠ 0`, `FunctionalSum`): the
+conjugate's proximal IS `proximal_convex_conj(f.proximal)`, so the executed pair adds up to `x`
+BY CONSTRUCTION (all lengths; only `f.proximal(σ)(x)` must have the length of `x`).
+The theorem adds: the executed `Fn.conj` / `Fn.toProx` / `proxConvexConj` chain computes exactly
+that, with the step `1/(1/σ)` and the argument `(1/(1/σ))·(x/σ)`. -/
+theorem C08.moreau_exec_default_conj (E : OdlModel.Prox.Env K) (w : List K) (f : Fn (List K) K)
+    (F : OdlModel.Prox.Fn K) (hconj : f.conj (listOps w) = some (.dconj f))
+    (hF : f.toProx 1 = some F) (σ : K) (x : List K) (hσ : 0 < σ)
+    (hl : (F.prox E w (.sc σ) x).length = x.length) :
+    ∃ p1 p2, moreauPair E 1 w f σ x = .ok p1 p2 x := by
+  have hne : σ ≠ 0 := ne_of_gt hσ
+  have e1 : (1 : K) / (1 / σ) = σ := by field_simp
+  have e2 : (x.map (· / σ)).map (σ * ·) = x := by
+    rw [List.map_map]
+    have : x = x.map id := by simp
+    conv_rhs => rw [this]
+    apply List.map_congr_left; intro a _; simp only [Function.comp, id]; field_simp
+  have key : moreauLhs σ (F.prox E w (.sc σ) x)
+      ((OdlModel.Prox.Fn.conj F).prox E w (.sc (1 / σ)) (x.map (· / σ))) = x := by
+    simp only [OdlModel.Prox.Fn.prox, OdlModel.Prox.proxConvexConj, OdlModel.Prox.Sig.scalar,
+      C08.vec_sub_data, C08.vec_smul_data, e1, e2]
+    exact C08.moreauLhs_conj σ hne x _ hl
+  simp only [moreauPair, hconj, hF, Fn.toProx, Option.map_some]
+  rw [key]
+  exact ⟨_, _, rfl⟩
+
+end moreau_extra
+
+section moreau_extra_examples
+open OdlModel.C08
+
+/-- Non-vacuity of `moreau_l1_fudged`: the code's radius `1 − 10⁻¹⁴`. -/
+example : |OdlModel.Prox.softCode (2 : ℝ) 5 0
+    + 2 * OdlModel.Prox.ccL1Code (1 - 1 / 10 ^ 14) 0 (5 / 2) - 5| ≤ 2 * (1 - (1 - 1 / 10 ^ 14)) :=
+  C08.moreau_l1_fudged 2 5 _ (by norm_num) (by norm_num) (by norm_num)
+
+/-- Non-vacuity of `moreau_exec_default_conj`: `‖x‖₁ + 2‖x‖² + <x, u>` (quadratic coefficient
+`2 ≠ 0`, conjugate = default wrapper). -/
+example : ∃ p1 p2, moreauPair realEnv 1 [1, 1]
+      (.qp (.coord .l1) 2 true [1, -1] 0) (1 / 2) [3, -4] = .ok p1 p2 [3, -4] := by
+  refine C08.moreau_exec_default_conj realEnv [1, 1] _ (.quad (.l1 1 none) 2 (some [1, -1])) ?_ ?_
+    (1 / 2) [3, -4] (by norm_num) ?_
+  · simp [Fn.conj]
+  · simp [Fn.toProx]
+  · simp [OdlModel.Prox.Fn.prox, OdlModel.Prox.proxQuadPerturb, OdlModel.Prox.proxArgScaling,
+      C08.vec_smul_data, C08.vec_sub_data, C08.idxMap_length]
+end moreau_extra_examples
